@@ -364,8 +364,10 @@ func propC13(c *ctx) error {
 			N int
 		}{&sv, 3}
 		pp := &sv
+		// exported fields and methods whose names begin with an upper-case letter outside ASCII (2-, 3- and 4-byte UTF-8)
+		uni := uniNames{Émail: "e", Имя: "i", Ảnh: "a", Ὄνομα: "o", Ｘ: 7, 𐐀bc: "d", Ωmega: 8, ảnh: "hidden"}
 		data := map[string]any{"vm": anon, "vp": anonP, "pvm": &anon, "nm": namedMap{"k": 1, "Len": 2}, "pp": &pp,
-			"box": struct{ V any }{V: sv}, "boxp": struct{ V fmt.Stringer }{V: stringerT("st")}}
+			"box": struct{ V any }{V: sv}, "boxp": struct{ V fmt.Stringer }{V: stringerT("st")}, "u": uni, "up": &uni}
 		cases := []struct{ src, want string }{
 			{"vm.Get()", "int:5"}, {"vm['Get']()", "int:5"}, {"vm.A", "int:5"}, {"vm.Extra", "string:" + hexOf("x")}, {"vm.Ok()", "int:5"},
 			{"vm.Z", "int:9"}, {"vm.S.B", "string:" + hexOf("bee")}, {"pvm.Get()", "int:5"}, {"pvm.Extra", "string:" + hexOf("x")},
@@ -373,6 +375,10 @@ func propC13(c *ctx) error {
 			{"nm.Size()", "int:2"}, {"nm.k", "int:1"}, {"nm['Len']", "int:2"},
 			{"box.V.A", "int:5"}, {"box.V.Get()", "int:5"}, {"boxp.V.String()", "string:" + hexOf("st")},
 			{"vm.Nope", "error"}, {"vm.c", "error"}, {"nm.absent", "error"},
+			{"u.Émail", "string:" + hexOf("e")}, {"u.Имя", "string:" + hexOf("i")}, {"u.Ảnh", "string:" + hexOf("a")}, {"u.Ὄνομα", "string:" + hexOf("o")},
+			{"u.Ｘ", "int:7"}, {"u.𐐀bc", "string:" + hexOf("d")}, {"u.Ωmega", "int:8"}, {"up.Ảnh", "string:" + hexOf("a")}, {"up.Ｘ", "int:7"},
+			{"u['Ảnh']", "string:" + hexOf("a")}, {"u['𐐀bc']", "string:" + hexOf("d")}, {"u.Ḿethod()", "string:" + hexOf("m")}, {"up.Ḿethod()", "string:" + hexOf("m")},
+			{"u.ảnh", "error"}, {"u.Ảnx", "error"},
 		}
 		for _, cs := range cases {
 			out := implEvalStable(cs.src, []any{data})
@@ -393,6 +399,16 @@ func propC13(c *ctx) error {
 }
 
 var errUnspecified = errors.New("unspecified")
+
+type uniNames struct {
+	Émail, Имя, Ảnh, Ὄνομα string
+	Ｘ                     int
+	𐐀bc                   string
+	Ωmega                 int
+	ảnh                   string
+}
+
+func (uniNames) Ḿethod() string { return "m" }
 
 type namedMap map[string]int
 
